@@ -1,12 +1,11 @@
 #!/usr/bin/env python3
-"""tools/try_seed.py <seed_dir> <Cxx[,Cyy]> [--skip-tests] [--in-repo]
+"""tools/try_seed.py <seed_dir> <Cxx[,Cyy]> [--skip-tests] [--slot=K] [--sync]
 
 Confirms a seeded change (patch.diff + demo.py) independently and runs our checks against it:
  1. fresh scratch worktree of /repo under /tmp: demo passes on the clean tree;
  2. patch applies; demo fails with it; the full existing test suite still passes with it;
  3. ./check for the given properties against the patched tree
-    (default: a scratch copy through VERIF_REPO so that concurrent work on /repo is not disturbed;
-     --in-repo: git -C /repo apply ... ; run ; git -C /repo checkout -- .);
+    (a patched scratch copy of /repo through VERIF_REPO, inside an isolated copy of /verif: tools/mutcheck.py);
  4. prints a JSON summary (and the scratch worktree is removed).
 """
 import json
@@ -28,7 +27,6 @@ def main():
     seed = os.path.abspath(sys.argv[1])
     props = sys.argv[2].split(",")
     skip_tests = "--skip-tests" in sys.argv
-    in_repo = "--in-repo" in sys.argv
     patch = os.path.join(seed, "patch.diff")
     demo = os.path.join(seed, "demo.py")
     wt = f"/tmp/seedwt_{os.getpid()}"
@@ -54,37 +52,14 @@ def main():
             rc, o = sh("/venv/bin/python -m pytest -q -p no:cacheprovider perception_eval/test 2>&1 | tail -3", cwd=wt, env=env, timeout=1800)
             out["tests_with_mutant"] = o.strip().split("\n")[-1]
             out["tests_s"] = round(time.time() - t)
-        # our checks
-        res = {}
-        if in_repo:
-            rc, o = sh(f"git -C /repo apply {patch}")
-            assert rc == 0, o
-            try:
-                for p in props:
-                    rc, o = sh(f"./check {p} quick", cwd=ROOT, timeout=3600)
-                    res[p] = {"rc": rc, "lines": [l for l in o.split("\n") if l.startswith(("VIOLATION", "KNOWN-FINDING", "[C"))]}
-            finally:
-                sh("git -C /repo checkout -- .")
-        else:
-            scratch = os.path.join(ROOT, "build", f"seed_repo_{os.getpid()}")
-            os.makedirs(scratch, exist_ok=True)
-            sh(f"rsync -a --exclude .git {wt}/perception_eval {scratch}/")
-            try:
-                env2 = dict(os.environ, VERIF_REPO=scratch)
-                for p in props:
-                    rc, o = sh(f"./check {p} quick", cwd=ROOT, env=env2, timeout=3600)
-                    res[p] = {"rc": rc, "lines": [l for l in o.split("\n") if l.startswith(("VIOLATION", "KNOWN-FINDING", "[C"))]}
-                    for l in res[p]["lines"]:
-                        if l.startswith("VIOLATION") and "replay=" in l:
-                            rp = l.split("replay=")[1].split()[0]
-                            try:
-                                d = json.load(open(rp))
-                                res[p]["what"] = d.get("what") or ("no failing input; broken: " + "; ".join(str(b.get("error")) for b in d.get("broken", [])))
-                            except Exception:
-                                pass
-            finally:
-                shutil.rmtree(scratch, ignore_errors=True)
-                sh(f"python3 {ROOT}/translator/py_to_coq.py /repo {ROOT}/coq/theories/Gen")  # restore Gen/ from /repo
+        # our checks, against a patched copy of /repo in an isolated copy of /verif (tools/mutcheck.py)
+        sys.path.insert(0, os.path.join(ROOT, "tools"))
+        import mutcheck
+        slot = "0"
+        for a in sys.argv:
+            if a.startswith("--slot="):
+                slot = a.split("=", 1)[1]
+        res = mutcheck.run(slot, patch, props, do_sync="--sync" in sys.argv).get("checks", {})
         out["checks"] = res
         return out
     finally:
